@@ -466,6 +466,21 @@ func GenBig(r *lib.RNG, name string) *Case {
 	tags := []string{"big_snapshot", "udp", "tcp", "ipv4", "ipv6", "cut_across_files", "batched"}
 	n1 := 45_000 + r.Intn(2000)
 	n2 := 8_000 + r.Intn(2000)
+	// the plan/shape is chosen by the case's ordinal in its name (…-big-<seed>-<i>): 0 resume from the snapshot,
+	// 1 the same across a builder restart, 2 QUIET snapshot (taken when no flow is alive), 3 reverse arrival
+	variant := r.Intn(4)
+	if i := strings.LastIndex(name, "-"); i >= 0 {
+		if n, err := strconv.Atoi(name[i+1:]); err == nil {
+			variant = n % 4
+		}
+	}
+	quiet := variant == 2
+	if quiet {
+		// exactly 100 000 packets, then silence: the snapshot is taken at the first packet after the silence,
+		// when every earlier flow has timed out, so it refers to nothing of the big capture
+		n1, n2 = 50_000, 40
+		tags = append(tags, "snapshot_without_live_flows")
+	}
 	mk := func(proto string, cidx, sidx, cp, sp int) int {
 		c.Convs = append(c.Convs, Conv{Proto: proto, C: cidx, S: sidx, CP: cp, SP: sp})
 		return len(c.Convs) - 1
@@ -504,16 +519,8 @@ func GenBig(r *lib.RNG, name string) *Case {
 	nw := mk("udp", 0, 1, 5555, 53)
 	addRep(&small, nw, 0, t2+100, 2, 3, 0x45)
 	c.Files = []File{big, small}
-	// the plan is chosen by the case's ordinal in its name (…-big-<seed>-<i>) so that a run with
-	// k >= 2 big cases always covers "resume from the snapshot" as well as "no snapshot available"
-	variant := r.Intn(3)
-	if i := strings.LastIndex(name, "-"); i >= 0 {
-		if n, err := strconv.Atoi(name[i+1:]); err == nil {
-			variant = n % 3
-		}
-	}
 	switch variant {
-	case 0:
+	case 0, 2:
 		c.Plan = []Op{{Op: "new"}, {Op: "put", Files: []string{"big.pcap"}}, {Op: "import", Files: []string{"big.pcap"}},
 			{Op: "put", Files: []string{"after.pcap"}}, {Op: "import", Files: []string{"after.pcap"}}}
 	case 1:
